@@ -51,6 +51,8 @@ fn drive(case: &Case, mode: Mode, rec: bool, st: Option<&mut Stats>) -> Driven {
     let cfg = BootCfg { recording: rec && case.rec_from_boot, intercept_emit: case.intercept_emit, input: case.input.clone(), d2: false };
     let mut xs = boot(&cfg);
     for h in &case.history {
+        // bounded: a shrunk history may loop forever
+        xs.set_insn_limit(Some(20_000)).unwrap();
         let _ = xs.eval(h);
     }
     // history output is not part of the comparison
@@ -101,10 +103,12 @@ impl Engine for Drive {
     const STUB: &'static str = "process stdout (captured in memory); no terminal, files or child processes are reachable from the generated words";
 
     fn generate(rng: &mut Rng, _tier: Tier) -> Case {
-        let f = Features::swarm(rng);
+        let mut f = Features::swarm(rng);
         let input_len = *rng.pick(&[0usize, 8, 64, 64, 64]);
         let input = random_bytes(rng, input_len);
         let intercept_emit = rng.chance(1, 2);
+        // without interception `emit` writes to the process's real stdout
+        f.emit = f.emit && intercept_emit;
         let rec_from_boot = rng.chance(1, 2);
         let nh = rng.below(4);
         let mut history = Vec::new();
